@@ -78,7 +78,7 @@ class DstWorld(World):
     def enabled(self, st):
         evs = []
         for e in self.alphabet:
-            if e[0] == "expire":
+            if e[0] in ("expire", "advance"):
                 if clock.next_expiry(st.D.h) is not None:
                     evs.append(e)
             elif e[0] == "reject":
@@ -144,13 +144,22 @@ class DstWorld(World):
         ent = st.D
         pre_step = ent.h.states.step.name
         pre_tree = sandbox.tree()
+        rem = [clock.remaining(t) for t in clock.timers(ent.h)]
+        out["timers"] = [len(rem), sum(1 for r in rem if r == 0)]  # armed timers, of which expired at call entry
         if k == "tick":
             obs, msgs = ent.step(None)
         elif k == "expire":
             delta = clock.next_expiry(ent.h)
             clock.advance(ent.h, delta)
             out["dt"] = delta
+            rem = [clock.remaining(t) for t in clock.timers(ent.h)]
+            out["timers"] = [len(rem), sum(1 for r in rem if r == 0)]
             obs, msgs = ent.step(None)
+        elif k == "advance":  # time passes up to the next expiry; the handler is not called
+            delta = clock.next_expiry(ent.h)
+            clock.advance(ent.h, delta)
+            out["dt"] = delta
+            obs, msgs = {}, []
         elif k == "cancel":
             tid = self.cur_tid(st) if ev[1] == "right" else TransactionId(UnsignedByteField(1, self.c["idw_s"]), UnsignedByteField(st.seq + 7, self.c["seqw"]))
             obs, msgs, ret = ent.call(ent.h.cancel_request, tid)
@@ -188,7 +197,7 @@ class DstWorld(World):
         pass
 
     def quiet(self, obs):
-        return set(obs) <= {"pre_step", "post_step", "dt"} and obs.get("pre_step") == obs.get("post_step")
+        return set(obs) <= {"pre_step", "post_step", "dt", "timers"} and obs.get("pre_step") == obs.get("post_step")
 
     # ---- helpers -----------------------------------------------------------------------------
     @staticmethod
